@@ -8,6 +8,7 @@ import (
 	sdkmath "cosmossdk.io/math"
 	"github.com/cosmos/cosmos-sdk/store/prefix"
 	sdk "github.com/cosmos/cosmos-sdk/types"
+	vestexported "github.com/cosmos/cosmos-sdk/x/auth/vesting/exported"
 	"github.com/ethereum/go-ethereum/common"
 
 	haqqtypes "github.com/haqq-network/haqq/types"
@@ -190,6 +191,12 @@ func (k *Keeper) DeleteAccount(ctx sdk.Context, addr common.Address) error {
 	_, ok := acct.(haqqtypes.EthAccountI)
 	if !ok {
 		return errorsmod.Wrapf(types.ErrInvalidAccount, "type %T, address %s", acct, addr)
+	}
+
+	// a vesting account carries a lock-up/vesting schedule and the tracking of its delegations:
+	// removing it would release everything that is locked, so it cannot be selfdestructed
+	if _, isVesting := acct.(vestexported.VestingAccount); isVesting {
+		return errorsmod.Wrapf(types.ErrInvalidAccount, "vesting account %s cannot be destructed", addr)
 	}
 
 	// clear balance
